@@ -3,6 +3,7 @@
 package internal
 
 import (
+	"bytes"
 	"encoding/json"
 	"fmt"
 	"net/http"
@@ -267,6 +268,30 @@ func TestVerifC18Codec(t *testing.T) {
 					}
 					if !proto.Equal(orig, back) {
 						return verifkit.Violf("codec-roundtrip:"+cd.Name(), "%s codec: Unmarshal(%s(m)) differs from m", cd.Name(), name)
+					}
+				}
+			}
+			// an encoding stays what it was: encoding another message afterwards (as a second caller of the same codec
+			// would) must not change bytes handed out earlier
+			for _, cd := range []codec{StrictProtoCodec{}, StrictJSONCodec{}} {
+				for _, name := range []string{"Marshal", "MarshalStable"} {
+					enc := func(m any) ([]byte, error) {
+						if name == "Marshal" {
+							return cd.Marshal(m)
+						}
+						return cd.MarshalStable(m)
+					}
+					first, err := enc(orig)
+					if err != nil {
+						continue
+					}
+					snapshot := append([]byte{}, first...)
+					for _, other := range vfCodecTypes {
+						_, _ = enc(other) // (zero values of the other message types: short encodings that fit any reused buffer)
+					}
+					_, _ = enc(&conformancev1.Header{Name: strings.Repeat("n", len(first)+8)})
+					if !bytes.Equal(first, snapshot) {
+						return verifkit.Violf("codec-output-aliased:"+cd.Name(), "%s codec: the bytes returned by %s changed after later %s calls for other messages", cd.Name(), name, name)
 					}
 				}
 			}
